@@ -239,6 +239,13 @@ def run(ctx):
     ctx.check("C11-R4", fs, "region and wcs passed to find_islands", okc,
               "find_sources_in_image must hand global_data.region and a wcs "
               "helper to find_islands", node=calls[0] if calls else fs.node)
+    # ---------------------------------------------------------------- R6
+    ctx.rule("C11-R6", "the membership answer the island filter relies on "
+             "sees every stored level of the region (1..maxdepth-1 are "
+             "flattened into the deepest one) -- shared with C08-R4 / C09-R5")
+    from ..regionmodel import region_methods
+    from .c08 import demotion_levels
+    demotion_levels(ctx, region_methods(prog), "C11-R6")
     # ---------------------------------------------------------------- R5
     nl = link.check(ctx, ["source_finder.find_islands",
                           "regions.Region.sky_within", "regions.Region.load"],
